@@ -38,6 +38,20 @@ theorem sub_one_ok {a : Nat} (h : 0 < a) : Rs.sub a 1 = .ok (a - 1) := sub_ok h
    instead of leaving a big definitional-equality problem to the kernel, which can be very slow. -/
 theorem ok_bind {α β : Type} (a : α) (f : α → Rs.M β) : (Except.ok a >>= f) = f a := id rfl
 
+/-- congruence rules that make `simp` evaluate generated code sequentially: only the first action of
+    a `>>=` and only the condition of an `if` are simplified; the continuation / the chosen branch is
+    visited after `ok_bind` / `↓reduceIte` have fired.  (With the default rules `simp` would first
+    simplify every continuation and both branches with the bound variable still abstract, trying —
+    and failing — to discharge every side condition there.)  Activated per file with
+    `attribute [local congr]`. -/
+theorem rs_bind_congr {α β : Type} {x x' : Rs.M α} {f : α → Rs.M β} (h : x = x') :
+    (x >>= f) = (x' >>= f) := h ▸ rfl
+
+theorem rs_ite_congr {α : Sort _} {b c : Prop} {x y : α} [Decidable b] [Decidable c] (h : b = c) :
+    ite b x y = ite c x y := by
+  subst h
+  congr
+
 theorem MAX_eq : Rs.MAX = 18446744073709551615 := by decide
 theorem IMAX_eq : Rs.IMAX = 9223372036854775807 := by decide
 
